@@ -14,14 +14,20 @@ Variable parseJ : T -> option F.
 Hypothesis nz_zero : nz zero = false.
 Hypothesis fmt_parse : forall x t, fmtJ x = Some t -> parseJ t = Some x.
 
-Definition real_good (r : real F) : Prop := wf_real F r /\ ~ hess_only F nz r.
+(* kept from round 1 (then: well-formed and not Hessian-only); since 500dcc2 every well-formed Real is good *)
+Definition real_good (r : real F) : Prop := wf_real F r.
 
 Lemma real_codec : forall e d, real_good e -> write_real F T nz fmtJ e = Ok d ->
-  exists e', read_real F T parseJ d = Ok e' /\ real_obs_eq F zero nz e e'.
+  exists e', read_real F T zero parseJ d = Ok e' /\ real_obs_eq F zero nz e e'.
 Proof.
-  intros e d [Hw Hh] Hwr.
-  destruct (real_roundtrip F T zero nz fmtJ parseJ nz_zero fmt_parse e d Hw Hh Hwr) as (r' & Hr & _ & Ho). eauto.
+  intros e d Hw Hwr.
+  destruct (real_roundtrip F T zero nz fmtJ parseJ nz_zero fmt_parse e d Hw Hwr) as (r' & Hr & _ & Ho). eauto.
 Qed.
+
+Lemma real_rd_total : forall x, read_real F T zero parseJ x <> Panic /\ read_real F T zero parseJ x <> Crash.
+Proof. apply real_reader_total. Qed.
+Lemma plain_rd_total : forall x, read_plain F T parseJ x <> Panic /\ read_plain F T parseJ x <> Crash.
+Proof. intros x. unfold read_plain. destruct (parseJ x); simpl; split; discriminate. Qed.
 
 Lemma plain_codec : forall (e : F) d, True -> write_plain F T fmtJ e = Ok d ->
   exists e', read_plain F T parseJ d = Ok e' /\ e = e'.
@@ -42,20 +48,40 @@ Qed.
 
 Lemma dense_real_vector v d :
   Forall real_good v -> write_dv (real F) (sdoc T) (write_real F T nz fmtJ) v = Ok d ->
-  exists v', read_dv (real F) (sdoc T) (read_real F T parseJ) d = Ok v' /\ Forall2 (real_obs_eq F zero nz) v v'.
+  exists v', read_dv (real F) (sdoc T) (read_real F T zero parseJ) d = Ok v' /\ Forall2 (real_obs_eq F zero nz) v v'.
 Proof. apply dv_roundtrip, real_codec. Qed.
 
 Lemma dense_plain_matrix (m : dmat F) d ez :
-  wf_dm m -> write_dm F T (write_plain F T fmtJ) ez m = Ok d ->
+  wf_dm m -> dm_rows m * dm_cols m < 2^63 -> write_dm F T (write_plain F T fmtJ) ez m = Ok d ->
   exists m', read_dm F T (read_plain F T parseJ) false d = Ok m' /\ wf_dm m' /\ dm_obs_eq eq m m'.
 Proof.
-  intros Hwf H. eapply dm_roundtrip with (good := fun _ => True); [exact plain_codec|assumption|apply Forall_True|eassumption].
+  intros Hwf Hb H. eapply dm_roundtrip with (good := fun _ => True); [exact plain_codec|assumption|assumption|apply Forall_True|eassumption].
 Qed.
 
 Lemma dense_real_matrix (m : dmat (real F)) d ez :
-  wf_dm m -> Forall real_good (dm_vals m) -> write_dm (real F) (sdoc T) (write_real F T nz fmtJ) ez m = Ok d ->
-  exists m', read_dm (real F) (sdoc T) (read_real F T parseJ) true d = Ok m' /\ wf_dm m' /\
+  wf_dm m -> dm_rows m * dm_cols m < 2^63 -> Forall real_good (dm_vals m) -> write_dm (real F) (sdoc T) (write_real F T nz fmtJ) ez m = Ok d ->
+  exists m', read_dm (real F) (sdoc T) (read_real F T zero parseJ) true d = Ok m' /\ wf_dm m' /\
              dm_obs_eq (real_obs_eq F zero nz) m m'.
-Proof. intros Hwf Hg H. eapply dm_roundtrip; [exact real_codec|assumption|exact Hg|eassumption]. Qed.
+Proof. intros Hwf Hb Hg H. eapply dm_roundtrip; [exact real_codec|assumption|assumption|exact Hg|eassumption]. Qed.
+
+(* reader safety including the elements: a Real matrix / vector the reader accepts holds well-formed Reals *)
+Lemma mapR_Forall_post {A B} (f : A -> res B) (P : B -> Prop) :
+  (forall a b, f a = Ok b -> P b) -> forall l ys, mapR f l = Ok ys -> Forall P ys.
+Proof.
+  intros Hf l ys H. apply mapR_Forall2 in H. induction H; constructor; eauto.
+Qed.
+Lemma dense_real_vector_reader_safe d v :
+  read_dv (real F) (sdoc T) (read_real F T zero parseJ) d = Ok v -> Forall (wf_real F) v.
+Proof. apply mapR_Forall_post. intros a b. apply real_reader_safe. Qed.
+Lemma dense_real_matrix_reader_safe d m b :
+  read_dm (real F) (sdoc T) (read_real F T zero parseJ) b d = Ok m ->
+  Forall (wf_real F) (dm_vals m) /\ (dmd_rows d * dmd_cols d < 2^63 -> wf_dm m).
+Proof.
+  intros H. split.
+  - unfold read_dm in H. apply bind_ok in H as (vals & Hv & H).
+    destruct (_ || _); [discriminate|]. inversion H; subst; simpl.
+    eapply mapR_Forall_post; [|eassumption]. intros a b0. apply real_reader_safe.
+  - apply read_dm_safe in H as (_ & _ & _ & _ & _ & _ & Hw). apply Hw.
+Qed.
 
 End Inst.
